@@ -39,29 +39,45 @@ type Case struct {
 	PubYields  []int  `json:"publisher_yields"`
 	Subs       []Sub  `json:"subscribers"`
 	Procs      int    `json:"gomaxprocs"`
+	// Redundant: Unsubscribe calls that remove nothing - after that many
+	// publishes, of a channel that was never subscribed ("foreign") or of
+	// one that has been unsubscribed already ("again").  The other
+	// subscribers must not notice.
+	Redundant []Redundant `json:"redundant_unsubscribes,omitempty"`
+	// CloseBackend: the run ends by closing the queue / deque behind the
+	// broker right after the last Publish returned (whatever is still
+	// undelivered may be dropped, nothing may be invented or doubled)
+	CloseBackend bool `json:"close_backend,omitempty"`
+}
+
+type Redundant struct {
+	After int    `json:"after"`
+	Kind  string `json:"kind"`
 }
 
 func (c *Case) lossless() bool {
 	return c.BufferSize == 0 && (c.Backend == "channel" || c.Backend == "queue" || c.Backend == "deque")
 }
 
-func mkBroker(ctx context.Context, c *Case) *pubsub.Broker[int] {
+func mkBroker(ctx context.Context, c *Case) (*pubsub.Broker[int], func()) {
 	opts := pubsub.BrokerOptions{ParallelDispatch: c.Parallel, WorkerPoolSize: c.Workers, BufferSize: c.BufferSize}
 	switch c.Backend {
 	case "channel":
-		return pubsub.NewBroker[int](ctx, opts)
+		return pubsub.NewBroker[int](ctx, opts), nil
 	case "queue":
-		return pubsub.NewQueueBroker[int](ctx, pubsub.NewUnlimitedQueue[int](), opts)
+		q := pubsub.NewUnlimitedQueue[int]()
+		return pubsub.NewQueueBroker[int](ctx, q, opts), func() { _ = q.Close() }
 	case "deque":
-		return pubsub.NewDequeBroker[int](ctx, pubsub.NewUnlimitedDeque[int](), opts)
+		dq := pubsub.NewUnlimitedDeque[int]()
+		return pubsub.NewDequeBroker[int](ctx, dq, opts), func() { _ = dq.Close() }
 	case "queue-bounded":
 		q, err := pubsub.NewQueue[int](pubsub.QueueOptions{HardLimit: c.Capacity, SoftQuota: c.Capacity})
 		if err != nil {
 			panic(err)
 		}
-		return pubsub.NewQueueBroker[int](ctx, q, opts)
+		return pubsub.NewQueueBroker[int](ctx, q, opts), func() { _ = q.Close() }
 	default:
-		return pubsub.NewLIFOBroker[int](ctx, opts, c.Capacity)
+		return pubsub.NewLIFOBroker[int](ctx, opts, c.Capacity), nil
 	}
 }
 
@@ -88,7 +104,7 @@ func runCase(c *Case) (string, string) {
 	ctx, cancel := context.WithCancel(context.Background())
 	defer cancel()
 	var clock atomic.Int64
-	b := mkBroker(ctx, c)
+	b, closeBackend := mkBroker(ctx, c)
 	defer func() { b.Stop(); cancel() }()
 
 	total := c.Publishers * c.Messages
@@ -96,8 +112,9 @@ func runCase(c *Case) (string, string) {
 	pubReturn := make([]atomic.Int64, total) // stamp taken after it returned
 	var published atomic.Int64
 	idOf := func(p, k int) int { return p*c.Messages + k }
-	valOf := func(id int) int { return (id/c.Messages)*1000 + id%c.Messages }
-	idOfVal := func(v int) int { return (v/1000)*c.Messages + v%1000 }
+	// message values are never the zero value of the element type
+	valOf := func(id int) int { return (id/c.Messages+1)*1000 + id%c.Messages }
+	idOfVal := func(v int) int { return (v/1000-1)*c.Messages + v%1000 }
 
 	subs := make([]*subState, len(c.Subs))
 	var rwg sync.WaitGroup
@@ -148,10 +165,27 @@ func runCase(c *Case) (string, string) {
 		}
 	}
 	var lateMu sync.Mutex
+	redundantDone := make([]bool, len(c.Redundant))
 	late := func() string {
 		lateMu.Lock()
 		defer lateMu.Unlock()
 		n := int(published.Load())
+		for ri, r := range c.Redundant {
+			if redundantDone[ri] || r.After > n {
+				continue
+			}
+			redundantDone[ri] = true
+			ch := make(chan int)
+			if r.Kind == "again" {
+				for _, s := range subs {
+					if s != nil && s.unsubCall.Load() != 0 {
+						ch = s.ch
+						break
+					}
+				}
+			}
+			b.Unsubscribe(ctx, ch)
+		}
 		for i, s := range c.Subs {
 			if subs[i] == nil && s.SubscribeAfter <= n {
 				if why := startSub(i); why != "" {
@@ -214,11 +248,19 @@ func runCase(c *Case) (string, string) {
 		}
 		return out
 	}
+	closing := c.CloseBackend && closeBackend != nil
+	if closing {
+		closeBackend()
+	}
 	// While the finding C08:lost-at-unsubscribe is open, a subscriber
 	// that unsubscribes mid-stream is not required to receive its whole
 	// window; what it may miss is bounded below (weakLeavers).
 	weak := vkit.Known("C08:lost-at-unsubscribe")
-	if c.lossless() {
+	if closing {
+		// the broker is shutting down: delivery of the tail is not
+		// promised; give strays a moment to arrive
+		time.Sleep(3 * time.Millisecond)
+	} else if c.lossless() {
 		var missing string
 		lostKey := "lost"
 		ok := vkit.Eventually(limit, func() bool {
@@ -253,7 +295,7 @@ func runCase(c *Case) (string, string) {
 	// quiet period so that duplicates / strays would have arrived
 	time.Sleep(2 * time.Millisecond)
 	for _, s := range subs {
-		if s.unsubCall.Load() == 0 {
+		if s.unsubCall.Load() == 0 && !closing {
 			s.unsubCall.Store(clock.Add(1))
 			b.Unsubscribe(ctx, s.ch)
 		}
@@ -267,7 +309,7 @@ func runCase(c *Case) (string, string) {
 		seen := map[int]bool{}
 		for _, v := range got {
 			id := idOfVal(v)
-			if v < 0 || v%1000 >= c.Messages || v/1000 >= c.Publishers || pubCall[id].Load() == 0 {
+			if v < 1000 || v%1000 >= c.Messages || v/1000 > c.Publishers || pubCall[id].Load() == 0 {
 				return "invented", fmt.Sprintf("subscriber %d received %d, which was never published", i, v)
 			}
 			if seen[v] {
@@ -277,7 +319,7 @@ func runCase(c *Case) (string, string) {
 		}
 		order = append(order, got)
 	}
-	if c.lossless() && weak {
+	if c.lossless() && weak && !closing {
 		// early leavers under the open finding: messages that were
 		// still undispatched when the unsubscription took effect may be
 		// missing - with one dispatch worker these are, per publisher,
@@ -312,7 +354,8 @@ func runCase(c *Case) (string, string) {
 		}
 	}
 	if c.lossless() && c.Workers <= 1 {
-		// one dispatch worker: publisher order is preserved …
+		// one dispatch worker: publisher order is preserved (also for
+		// what was delivered before a closing back-end ended the run) …
 		for i, got := range order {
 			last := map[int]int{}
 			for _, v := range got {
@@ -371,6 +414,12 @@ func genCase(t *rapid.T) *Case {
 		}
 		c.Subs = append(c.Subs, s)
 	}
+	for i, n := 0, rapid.IntRange(0, 3).Draw(t, "redundant")-1; i < n; i++ {
+		c.Redundant = append(c.Redundant, Redundant{After: rapid.IntRange(0, total).Draw(t, "redundantAfter"), Kind: rapid.SampledFrom([]string{"foreign", "again"}).Draw(t, "redundantKind")})
+	}
+	if c.Backend != "channel" && c.Backend != "lifo" && rapid.IntRange(0, 5).Draw(t, "closeBackend") == 0 {
+		c.CloseBackend = true
+	}
 	return c
 }
 
@@ -410,6 +459,12 @@ func TestBrokerDelivery(t *testing.T) {
 		}
 		if early {
 			cls = append(cls, "early-unsubscribe")
+		}
+		if len(c.Redundant) > 0 {
+			cls = append(cls, "redundant-unsubscribe")
+		}
+		if c.CloseBackend {
+			cls = append(cls, "ends-by-closing-the-backend")
 		}
 		vkit.CaseN(tBroker, vkit.Hash(*c), reps, (len(c.Subs) >= 2 || c.Publishers >= 2) && c.Publishers*c.Messages >= 1, cls, func() any { return *c })
 	})
